@@ -399,6 +399,11 @@ def classify(rec, pfail, mfail, extra, rep):
         rep.notes.setdefault("known_paths", {})
         rep.notes["known_paths"][rec["path"]] = rep.notes["known_paths"].get(rec["path"], 0) + 1
         return "known:F-C09-1"
+    if pfail in ("masters-stay-compatible", "jointly-fixable-glyphs-stay-compatible") and extra and extra[0] == "F-C09-2":
+        rep.known("F-C09-2", "TrueType interpolatable path: a composite held by a sparse master whose (flattened) component transform "
+                             "overflows F2Dot14 while the sparse master lacks one of its bases is decomposed by the glyph pen from "
+                             "the empty placeholders: the glyph is empty in the sparse master and drawn in the full ones")
+        return "known:F-C09-2"
     if pfail != "none":
         rep.notes.setdefault("witnesses", []).append({"tid": rec["tid"], "clause": pfail, "err": rec.get("err", ""), "path": rec.get("path", "VFs")})
     return None
